@@ -157,6 +157,9 @@ Record client := mkClient {
   c_t3    : t3st;
   c_alt   : altst;           (* pendingAltSvcs / altSvcJar entry for the origin *)
   c_bg    : bool;            (* a handlePendingAltSvc goroutine has been started and has not run yet *)
+  c_fp    : bool;            (* Options.TLSHandshakeContext = the utls handshake SetTLSFingerprintX / ImpersonateX
+                                install: bound to the transport, it reads the client's TLS settings at every
+                                handshake; Clone installs it anew on the clone *)
   c_route : bool;            (* Options.Proxy = the environment's proxy (SetProxyURL) *)
   c_alti  : bool             (* the HTTP/1 idle list holds the persistConn{alt: t2} that dialConn returned after an
                                 ALPN hand-off (key onlyH1 = false); such an entry is never taken out, a request that
@@ -164,27 +167,29 @@ Record client := mkClient {
 }.
 (* req.C(): transport.go T() + client.go C() *)
 Definition new_client : client :=
-  mkClient (Some (mkTls [] [] [] false default_next_protos)) FNone false false false None None false false false T3None ANone false false false.
+  mkClient (Some (mkTls [] [] [] false default_next_protos)) FNone false false false None None false false false T3None ANone false false false false.
 
-Definition with_tls o c := mkClient o (c_force c) (c_h3 c) (c_allow_http c) (c_plain_dialtls c) (c_udial c) (c_uhs c) (c_idle c) (c_idle1 c) (c_t2 c) (c_t3 c) (c_alt c) (c_bg c) (c_route c) (c_alti c).
-Definition with_force f c := mkClient (c_tls c) f (c_h3 c) (c_allow_http c) (c_plain_dialtls c) (c_udial c) (c_uhs c) (c_idle c) (c_idle1 c) (c_t2 c) (c_t3 c) (c_alt c) (c_bg c) (c_route c) (c_alti c).
-Definition with_h3 b c := mkClient (c_tls c) (c_force c) b (c_allow_http c) (c_plain_dialtls c) (c_udial c) (c_uhs c) (c_idle c) (c_idle1 c) (c_t2 c) (c_t3 c) (c_alt c) (c_bg c) (c_route c) (c_alti c).
-Definition with_h2c a p c := mkClient (c_tls c) (c_force c) (c_h3 c) a p None (c_uhs c) (c_idle c) (c_idle1 c) (c_t2 c) (c_t3 c) (c_alt c) (c_bg c) (c_route c) (c_alti c).
-Definition with_allow a c := mkClient (c_tls c) (c_force c) (c_h3 c) a (c_plain_dialtls c) (c_udial c) (c_uhs c) (c_idle c) (c_idle1 c) (c_t2 c) (c_t3 c) (c_alt c) (c_bg c) (c_route c) (c_alti c).
+Definition with_tls o c := mkClient o (c_force c) (c_h3 c) (c_allow_http c) (c_plain_dialtls c) (c_udial c) (c_uhs c) (c_idle c) (c_idle1 c) (c_t2 c) (c_t3 c) (c_alt c) (c_bg c) (c_fp c) (c_route c) (c_alti c).
+Definition with_force f c := mkClient (c_tls c) f (c_h3 c) (c_allow_http c) (c_plain_dialtls c) (c_udial c) (c_uhs c) (c_idle c) (c_idle1 c) (c_t2 c) (c_t3 c) (c_alt c) (c_bg c) (c_fp c) (c_route c) (c_alti c).
+Definition with_h3 b c := mkClient (c_tls c) (c_force c) b (c_allow_http c) (c_plain_dialtls c) (c_udial c) (c_uhs c) (c_idle c) (c_idle1 c) (c_t2 c) (c_t3 c) (c_alt c) (c_bg c) (c_fp c) (c_route c) (c_alti c).
+Definition with_h2c a p c := mkClient (c_tls c) (c_force c) (c_h3 c) a p None (c_uhs c) (c_idle c) (c_idle1 c) (c_t2 c) (c_t3 c) (c_alt c) (c_bg c) (c_fp c) (c_route c) (c_alti c).
+Definition with_allow a c := mkClient (c_tls c) (c_force c) (c_h3 c) a (c_plain_dialtls c) (c_udial c) (c_uhs c) (c_idle c) (c_idle1 c) (c_t2 c) (c_t3 c) (c_alt c) (c_bg c) (c_fp c) (c_route c) (c_alti c).
 (* EnableH2C / DisableH2C.  Pinned code: EnableH2C also installed a plain net.Dial in the DialTLSContext slot
    (which every https connection of the client then used) and DisableH2C cleared the slot; repaired code: only the
    http2 AllowHTTP flag changes, http:// requests are dialled plain by the http2 transport itself *)
 Definition set_h2c (b : bool) (c : client) : client :=
   if h2c_installs_plain_dialtls then with_h2c b b c else with_allow b c.
-Definition with_idle i i1 c := mkClient (c_tls c) (c_force c) (c_h3 c) (c_allow_http c) (c_plain_dialtls c) (c_udial c) (c_uhs c) i i1 (c_t2 c) (c_t3 c) (c_alt c) (c_bg c) (c_route c) (c_alti c).
-Definition with_t2 b c := mkClient (c_tls c) (c_force c) (c_h3 c) (c_allow_http c) (c_plain_dialtls c) (c_udial c) (c_uhs c) (c_idle c) (c_idle1 c) b (c_t3 c) (c_alt c) (c_bg c) (c_route c) (c_alti c).
-Definition with_t3 x c := mkClient (c_tls c) (c_force c) (c_h3 c) (c_allow_http c) (c_plain_dialtls c) (c_udial c) (c_uhs c) (c_idle c) (c_idle1 c) (c_t2 c) x (c_alt c) (c_bg c) (c_route c) (c_alti c).
+Definition with_idle i i1 c := mkClient (c_tls c) (c_force c) (c_h3 c) (c_allow_http c) (c_plain_dialtls c) (c_udial c) (c_uhs c) i i1 (c_t2 c) (c_t3 c) (c_alt c) (c_bg c) (c_fp c) (c_route c) (c_alti c).
+Definition with_t2 b c := mkClient (c_tls c) (c_force c) (c_h3 c) (c_allow_http c) (c_plain_dialtls c) (c_udial c) (c_uhs c) (c_idle c) (c_idle1 c) b (c_t3 c) (c_alt c) (c_bg c) (c_fp c) (c_route c) (c_alti c).
+Definition with_t3 x c := mkClient (c_tls c) (c_force c) (c_h3 c) (c_allow_http c) (c_plain_dialtls c) (c_udial c) (c_uhs c) (c_idle c) (c_idle1 c) (c_t2 c) x (c_alt c) (c_bg c) (c_fp c) (c_route c) (c_alti c).
 (* SetDialTLS(fn) / SetDialTLS(nil): the single DialTLSContext slot (EnableH2C's plain dialler is overwritten) *)
-Definition with_udial o c := mkClient (c_tls c) (c_force c) (c_h3 c) (c_allow_http c) false o (c_uhs c) (c_idle c) (c_idle1 c) (c_t2 c) (c_t3 c) (c_alt c) (c_bg c) (c_route c) (c_alti c).
-Definition with_uhs o c := mkClient (c_tls c) (c_force c) (c_h3 c) (c_allow_http c) (c_plain_dialtls c) (c_udial c) o (c_idle c) (c_idle1 c) (c_t2 c) (c_t3 c) (c_alt c) (c_bg c) (c_route c) (c_alti c).
-Definition with_alti b c := mkClient (c_tls c) (c_force c) (c_h3 c) (c_allow_http c) (c_plain_dialtls c) (c_udial c) (c_uhs c) (c_idle c) (c_idle1 c) (c_t2 c) (c_t3 c) (c_alt c) (c_bg c) (c_route c) b.
-Definition with_route b c := mkClient (c_tls c) (c_force c) (c_h3 c) (c_allow_http c) (c_plain_dialtls c) (c_udial c) (c_uhs c) (c_idle c) (c_idle1 c) (c_t2 c) (c_t3 c) (c_alt c) (c_bg c) b (c_alti c).
-Definition with_alt a bg c := mkClient (c_tls c) (c_force c) (c_h3 c) (c_allow_http c) (c_plain_dialtls c) (c_udial c) (c_uhs c) (c_idle c) (c_idle1 c) (c_t2 c) (c_t3 c) a bg (c_route c) (c_alti c).
+Definition with_udial o c := mkClient (c_tls c) (c_force c) (c_h3 c) (c_allow_http c) false o (c_uhs c) (c_idle c) (c_idle1 c) (c_t2 c) (c_t3 c) (c_alt c) (c_bg c) (c_fp c) (c_route c) (c_alti c).
+Definition with_uhs o c := mkClient (c_tls c) (c_force c) (c_h3 c) (c_allow_http c) (c_plain_dialtls c) (c_udial c) o (c_idle c) (c_idle1 c) (c_t2 c) (c_t3 c) (c_alt c) (c_bg c) (c_fp c) (c_route c) (c_alti c).
+Definition with_alti b c := mkClient (c_tls c) (c_force c) (c_h3 c) (c_allow_http c) (c_plain_dialtls c) (c_udial c) (c_uhs c) (c_idle c) (c_idle1 c) (c_t2 c) (c_t3 c) (c_alt c) (c_bg c) (c_fp c) (c_route c) b.
+Definition with_route b c := mkClient (c_tls c) (c_force c) (c_h3 c) (c_allow_http c) (c_plain_dialtls c) (c_udial c) (c_uhs c) (c_idle c) (c_idle1 c) (c_t2 c) (c_t3 c) (c_alt c) (c_bg c) (c_fp c) b (c_alti c).
+(* the single TLSHandshakeContext slot: SetTLSHandshake(fn) replaces a fingerprint handshake, SetTLSFingerprint a fn *)
+Definition with_hs (o : option tlscfg) (fp : bool) c := mkClient (c_tls c) (c_force c) (c_h3 c) (c_allow_http c) (c_plain_dialtls c) (c_udial c) o (c_idle c) (c_idle1 c) (c_t2 c) (c_t3 c) (c_alt c) (c_bg c) fp (c_route c) (c_alti c).
+Definition with_alt a bg c := mkClient (c_tls c) (c_force c) (c_h3 c) (c_allow_http c) (c_plain_dialtls c) (c_udial c) (c_uhs c) (c_idle c) (c_idle1 c) (c_t2 c) (c_t3 c) a bg (c_fp c) (c_route c) (c_alti c).
 
 (* ---------- configuration operations ---------- *)
 (* client.go GetTLSClientConfig: allocate {NextProtos: h2, http/1.1} when the pointer is nil *)
@@ -215,6 +220,7 @@ Inductive op :=
 | OEnableH3                     (* EnableHTTP3 *)
 | OH2C (b : bool)               (* EnableH2C / DisableH2C *)
 | ODialTLS (o : option tlscfg)  (* SetDialTLS(fn doing its own TLS with this configuration) / SetDialTLS(nil) *)
+| OFingerprint                  (* SetTLSFingerprintChrome - stands for every SetTLSFingerprintX / ImpersonateX *)
 | OHandshake (o : option tlscfg) (* SetTLSHandshake(fn running crypto/tls with this configuration) / (nil) *)
 | OProxy (b : bool)             (* SetProxyURL(the environment's proxy) / SetProxy(nil), followed by
                                    CloseIdleConnections (idle connections are keyed by the proxy: those made on
@@ -232,8 +238,16 @@ Definition res := (outcome * list dial * client)%type.
 
 (* caller-supplied TLS (documented: valid for HTTP/1 and HTTP/2 only, HTTP/3 keeps using TLSClientConfig):
    DialTLSContext, when set, is consulted first by both TCP diallers; TLSHandshakeContext otherwise *)
+Definition fingerprint_alpn : list bytes := [alpn_h2; alpn_h1].   (* utls HelloChrome_Auto: ALPN h2, http/1.1 *)
+(* the fingerprint handshake works with the client's OWN settings of the moment (trust roots, server name, client
+   certificates, skip-verify; after repair of the missing name / certificates) and the ALPN list of the imitated
+   browser *)
+Definition fp_cfg (c : client) : tlscfg :=
+  let t := clone_or_empty (c_tls c) in mkTls (t_roots t) (t_sname t) (t_certs t) (t_skip t) fingerprint_alpn.
+Definition hs_slot (c : client) : option tlscfg :=
+  if c_fp c then Some (fp_cfg c) else c_uhs c.
 Definition user_tls (c : client) : option tlscfg :=
-  match c_udial c with Some t => Some t | None => c_uhs c end.
+  match c_udial c with Some t => Some t | None => hs_slot c end.
 (* the tls.Config a TCP dial of stack s handshakes with (the harness's caller-supplied functions default the
    server name to the dialled host like every stack does) *)
 Definition tcp_cfg (s : stack) (only_h1 : bool) (host : bytes) (c : client) : tlscfg :=
@@ -354,7 +368,7 @@ Definition rt_conn_proxy (px : proxy) (e : env) (c : client) : res :=
   match hp with
   | HsFail er => (Fail er, pd, c)
   | HsOk _ =>
-    let cfg := match c_uhs c with
+    let cfg := match hs_slot c with
                | Some t => default_sname (e_host e) t
                | None => tls_view S1 only_h1 (e_host e) (c_tls c)
                end in
@@ -488,7 +502,7 @@ Definition do_bg (e : env) (c : client) : list dial * client :=
 (* Transport.Clone (+ Options.Clone): configuration copied, connection state fresh *)
 Definition do_clone (c : client) : client :=
   mkClient (c_tls c) (c_force c) (c_h3 c) (clone_copies_allow_http && c_allow_http c) (c_plain_dialtls c)
-           (c_udial c) (c_uhs c) false false false T3None ANone false (c_route c) false.
+           (c_udial c) (c_uhs c) false false false T3None ANone false (c_fp c) (c_route c) false.
 
 (* Alt-Svc bookkeeping as the hook VerifAltSvcState reports it *)
 Inductive altobs := AOff | AObsNone | AObsPending | AObsReady | AObsJar.
@@ -512,7 +526,7 @@ Definition fork_apply (a : forkact) (c : client) : client :=
   | FkForce f => with_force f c
   | FkH2C b => set_h2c b c
   | FkDialTLS o => with_udial o c
-  | FkHandshake o => with_uhs o c
+  | FkHandshake o => with_hs o false c
   | FkProxy b => with_route b c
   end.
 
@@ -528,7 +542,8 @@ Definition step_gen (guard : bool) (e : env) (c : client) (o : op) : obs * clien
   | OEnableH3 => (ObsCfg, with_h3 true c)
   | OH2C b => (ObsCfg, set_h2c b c)
   | ODialTLS o => (ObsCfg, with_udial o c)
-  | OHandshake o => (ObsCfg, with_uhs o c)
+  | OHandshake o => (ObsCfg, with_hs o false c)
+  | OFingerprint => (ObsCfg, with_hs None true c)
   | OProxy b => (ObsCfg, with_route b (with_alti false (with_idle false false (with_t2 false (if closeidle_closes_h3 then with_t3 T3None c else c)))))
   | OClone => (ObsCfg, do_clone c)
   | OCloseIdle => (ObsCfg, with_alti false (with_idle false false (with_t2 false (if closeidle_closes_h3 then with_t3 T3None c else c))))
